@@ -290,8 +290,332 @@ Section Pool.
       intros Hcj. exfalso. pose proof (Ics j wj Hj Hcj). pose proof (Ics k wk Hk Hc). congruence.
     - unfold undone in *. pose proof (count_set_nth (fun wk => negb (is_done wk)) k wk' wk (ws s) Hk) as Hc.
       cbv beta in Hc. rewrite Hd in Hc. simpl in Hc. destruct (is_done wk'); simpl in *; lia.
-    - rewrite set_nth_length. split; auto. intros; lia.
+    - rewrite set_nth_length. split; auto. intros E9. rewrite (Iws1 E9) in Hlt. simpl in Hlt. lia.
     - pose proof (count_set_nth is_exited k wk' wk (ws s) Hk) as Hc. lia.
   Qed.
 
+  Lemma body_nonempty : exists a r, c_body c = a :: r /\ pc_in_cs (c_body c) = false.
+  Proof. destruct Hbody as [E | E]; rewrite E; do 2 eexists; split; reflexivity. Qed.
+
+  Lemma next_st_in_cs pc cur trc tab :
+    in_cs (mk_worker (next_st pc cur) trc tab) = pc_in_cs pc.
+  Proof. destruct pc; reflexivity. Qed.
+
+  Lemma next_st_wf a pc cur trc tab :
+    is_suffix (a :: pc) (c_body c) -> wf_w (mk_worker (next_st pc cur) trc tab).
+  Proof.
+    intros H. destruct pc; unfold wf_w; simpl; auto. split; [|discriminate].
+    eapply is_suffix_tail; eauto.
+  Qed.
+
+  Ltac wfin :=
+    simpl; auto; try lia;
+    try solve [ unfold wf_w; simpl; auto
+              | unfold mid_ok_v, in_cs; simpl; auto; try (intros ?; discriminate)
+              | match goal with Hnwf : forall _ _, _ -> wf_w _ |- _ => now apply Hnwf end
+              | rewrite app_length; simpl; lia ].
+
+  Lemma InvC_worker k s s' l : InvC s -> step_worker c k s = Some (s', l) -> InvC s'.
+  Proof.
+    intros I H. unfold step_worker in H.
+    destruct (nth_error (ws s) k) as [wk|] eqn:Hk; [|discriminate].
+    pose proof (ic_wf s I k wk Hk) as Hwf. unfold wf_w in Hwf.
+    destruct wk as [stt trc tab]; simpl in *.
+    destruct stt as [|pc cur|cur| |].
+    - (* WLoop *)
+      destruct (buf s) as [|b r] eqn:Eb.
+      + destruct (closed s); [|discriminate]. inversion H; subst; clear H.
+        apply (InvC_wupd s k _ _ (buf s) (store s) (rc s) (ab s) (mutex s) (wg s) (ebuf s) I Hk);
+          wfin.
+      + inversion H; subst; clear H.
+        destruct body_nonempty as (a0 & r0 & Eb0 & Ecs).
+        rewrite Eb0 in *. simpl next_st.
+        assert (Hwf0 : wf_w (mk_worker (WBody (a0 :: r0) b) trc tab)).
+        { unfold wf_w; simpl. rewrite Eb0. split; [apply is_suffix_refl|discriminate]. }
+        assert (Hcs0 : in_cs (mk_worker (WBody (a0 :: r0) b) trc tab) = false) by exact Ecs.
+        apply (InvC_wupd s k _ _ r (store s) (rc s) (ab s) (mutex s) (wg s) (ebuf s) I Hk); auto; try (intros ?; congruence); simpl; try lia.
+    - (* WBody *)
+      destruct pc as [|a pc]; [discriminate|]. destruct Hwf as [Hsuf _].
+      pose proof (next_st_wf a pc cur) as Hnwf.
+      pose proof (ic_cs s I k _ Hk) as Hcs. pose proof (ic_mid s I k _ Hk) as Hmid.
+      unfold in_cs, mid_ok, mid_ok_v, in_cs in *; simpl in *.
+      destruct (body_positions _ a pc Hbody Hsuf) as
+        [(-> & r & -> & E)|[(-> & r & ->)|[(-> & f & g & Hfg & ->)|[(f & g & Hfg & -> & ->)|
+         [(f & g & Hfg & -> & ->)|[(g & -> & ->)|[(g & -> & ->)|(-> & ->)]]]]]]].
+      + (* SaveBlk *)
+        destruct (b_fail cur); inversion H; subst; clear H;
+        (apply (InvC_wupd s k _ _ (buf s) _ (rc s) (ab s) (mutex s) (wg s) (ebuf s) I Hk);
+          wfin).
+      + (* SaveIdx *)
+        destruct (b_fail cur); inversion H; subst; clear H;
+        (apply (InvC_wupd s k _ _ (buf s) _ (rc s) (ab s) (mutex s) (wg s) (ebuf s) I Hk);
+          wfin).
+      + (* Lock *)
+        destruct (mutex s) eqn:Em; [discriminate|]. inversion H; subst; clear H.
+        apply (InvC_wupd s k _ _ (buf s) (store s) (rc s) (ab s) (Some k) (wg s) (ebuf s) I Hk);
+          wfin.
+      + (* Read f, first *)
+        destruct f; inversion H; subst; clear H;
+        (apply (InvC_wupd s k _ _ (buf s) (store s) (rc s) (ab s) (mutex s) (wg s) (ebuf s) I Hk);
+          wfin).
+      + (* Write f, first *)
+        destruct f; inversion H; subst; clear H;
+        (apply (InvC_wupd s k _ _ (buf s) (store s) _ _ (mutex s) (wg s) (ebuf s) I Hk);
+          wfin).
+      + (* Read g, second *)
+        destruct g; inversion H; subst; clear H;
+        (apply (InvC_wupd s k _ _ (buf s) (store s) (rc s) (ab s) (mutex s) (wg s) (ebuf s) I Hk);
+          wfin).
+      + (* Write g, second *)
+        destruct g; inversion H; subst; clear H;
+        (apply (InvC_wupd s k _ _ (buf s) (store s) _ _ (mutex s) (wg s) (ebuf s) I Hk);
+          wfin).
+      + (* Unlock *)
+        rewrite (Hcs eq_refl) in H. inversion H; subst; clear H.
+        apply (InvC_wupd s k _ _ (buf s) (store s) (rc s) (ab s) None (wg s) (ebuf s) I Hk);
+          wfin.
+    - (* WErr *)
+      assert (Hph : 8 <= ph s) by (eapply worker_ph; eauto).
+      destruct (ic_flags s I) as (Ie & _). rewrite Ie in H.
+      replace (ph s <=? 6) with false in H by (symmetry; apply Nat.leb_gt; lia).
+      destruct (List.length (ebuf s) <? c_ecap c); [|discriminate]. inversion H; subst; clear H.
+      apply (InvC_wupd s k _ _ (buf s) (store s) (rc s) (ab s) (mutex s) (wg s) _ I Hk);
+        wfin.
+    - (* WExit *)
+      assert (Hg : 1 <= wg s).
+      { rewrite (ic_wg s I). unfold undone. eapply count_pos; eauto. }
+      destruct (wg s) as [|n] eqn:Eg; [lia|]. inversion H; subst; clear H.
+      apply (InvC_wupd s k _ _ (buf s) (store s) (rc s) (ab s) (mutex s) n (ebuf s) I Hk);
+        wfin.
+    - discriminate.
+  Qed.
+
+  Theorem InvC_step t s s' l : InvC s -> step c t s = Some (s', l) -> InvC s'.
+  Proof.
+    intros I H. unfold step in H. rewrite (ic_np s I) in H.
+    destruct t as [|[|[|k]]].
+    - eapply InvC_main; eauto.
+    - eapply InvC_prod; eauto.
+    - eapply InvC_prod_cancel; eauto.
+    - eapply InvC_worker; eauto.
+  Qed.
+
+  Lemma InvC_execs items tr s : execs c (init c items) tr s -> InvC s.
+  Proof.
+    intros E. eapply (execs_inv c InvC); eauto.
+    - intros. eapply InvC_step; eauto.
+    - apply InvC_init.
+  Qed.
+
+  (* ---------------------------------------------------------------- progress *)
+  Lemma step_main_enabled s s' l : InvC s -> step_main c s = Some (s', l) -> enabled c s.
+  Proof. intros I H. exists 0, s', l. unfold step. now rewrite (ic_np s I). Qed.
+  Lemma step_prod_enabled s s' l : InvC s -> step_prod c s = Some (s', l) -> enabled c s.
+  Proof. intros I H. exists 1, s', l. unfold step. now rewrite (ic_np s I). Qed.
+  Lemma step_worker_enabled k s s' l : InvC s -> step_worker c k s = Some (s', l) -> enabled c s.
+  Proof. intros I H. exists (S (S (S k))), s', l. unfold step. now rewrite (ic_np s I). Qed.
+
+  Lemma prod_enabled s :
+    InvC s -> closed s = false -> buf s = [] -> 2 <= ph s -> exists s' l, step_prod c s = Some (s', l).
+  Proof.
+    intros I Hc Hb Hp. unfold step_prod. rewrite Hsel, Hb, Hc. simpl.
+    destruct (ic_prod s I) as (_ & Hs1 & Hs2 & _). destruct (ic_flags s I) as (_ & _ & Hsc).
+    destruct (pend s) as [|[b|] p] eqn:Ep.
+    - eauto.
+    - replace (0 <? c_ccap c) with true by (symmetry; apply Nat.ltb_lt; lia). eauto.
+    - rewrite Hsc. replace (ph s <=? 1) with false by (symmetry; apply Nat.leb_gt; lia).
+      destruct (sbuf s) as [|x r]; simpl; eauto. specialize (Hs2 ltac:(discriminate)). discriminate.
+  Qed.
+
+  Lemma count_pos_ex {A} (f : A -> bool) l : count f l <> 0 -> exists k x, nth_error l k = Some x /\ f x = true.
+  Proof.
+    induction l as [|y l IH]; intros H; [now destruct H|].
+    rewrite count_cons in H. destruct (f y) eqn:E.
+    - exists 0, y. auto.
+    - destruct (IH H) as (k & x & Hk & Hx). exists (S k), x. auto.
+  Qed.
+
+  Lemma workers_progress s : InvC s -> ph s = 8 -> wg s <> 0 -> enabled c s.
+  Proof.
+    intros I Hp Hg.
+    destruct (mutex s) as [h|] eqn:Em.
+    - (* the holder can run *)
+      destruct (ic_mx s I h Em) as (wk & Hk & Hcs).
+      pose proof (ic_wf s I h wk Hk) as Hwf. unfold wf_w, in_cs in *.
+      destruct wk as [stt trc tab]; simpl in *. destruct stt as [|pc cur|? | |]; try discriminate.
+      destruct pc as [|a pc]; [discriminate|]. destruct Hwf as [Hsuf _].
+      destruct (body_positions _ a pc Hbody Hsuf) as
+        [(-> & r & -> & E)|[(-> & r & ->)|[(-> & f & g & Hfg & ->)|[(f & g & Hfg & -> & ->)|
+         [(f & g & Hfg & -> & ->)|[(g & -> & ->)|[(g & -> & ->)|(-> & ->)]]]]]]]; simpl in Hcs; try discriminate;
+      try (destruct f); try (destruct g);
+      (eapply (step_worker_enabled h); [exact I|]; unfold step_worker; rewrite Hk; simpl; rewrite ?Em; reflexivity).
+    - rewrite (ic_wg s I) in Hg. destruct (count_pos_ex _ _ Hg) as (k & wk & Hk & Hu).
+      pose proof (ic_wf s I k wk Hk) as Hwf. unfold wf_w in *.
+      destruct wk as [stt trc tab]; simpl in *. unfold is_done in Hu; simpl in Hu.
+      destruct stt as [|pc cur|cur| |]; try discriminate.
+      + (* WLoop *)
+        destruct (buf s) as [|b r] eqn:Eb.
+        * destruct (closed s) eqn:Ec.
+          -- eapply (step_worker_enabled k); [exact I|]. unfold step_worker. rewrite Hk, Eb, Ec. reflexivity.
+          -- destruct (prod_enabled s I Ec Eb ltac:(lia)) as (s' & l & H). eapply step_prod_enabled; eauto.
+        * eapply (step_worker_enabled k); [exact I|]. unfold step_worker. rewrite Hk, Eb. reflexivity.
+      + destruct pc as [|a pc]; [destruct Hwf; congruence|].
+        destruct a as [| | | |[]|[]]; try (destruct (b_fail cur) eqn:Ef);
+          (eapply (step_worker_enabled k); [exact I|]; unfold step_worker; rewrite Hk; simpl; rewrite ?Em, ?Ef; reflexivity).
+      + destruct (ic_flags s I) as (Ie & _).
+        assert (Hl : List.length (ebuf s) < c_ecap c).
+        { pose proof (ic_ebuf s I). pose proof (count_lt is_exited _ _ _ Hk eq_refl).
+          destruct (ic_ws s I) as [_ Hws]. rewrite Hws in * by lia. lia. }
+        eapply (step_worker_enabled k); [exact I|]. unfold step_worker. rewrite Hk. simpl.
+        rewrite Ie, Hp. simpl. apply Nat.ltb_lt in Hl. rewrite Hl. reflexivity.
+      + destruct (wg s) eqn:Eg;
+          (eapply (step_worker_enabled k); [exact I|]; unfold step_worker; rewrite Hk; simpl; rewrite Eg; reflexivity).
+  Qed.
+
+  Lemma main_enabled s : InvC s -> step_main c s <> None -> enabled c s.
+  Proof.
+    intros I H. destruct (step_main c s) as [[s' l]|] eqn:E; [|congruence].
+    eapply step_main_enabled; eauto.
+  Qed.
+
+  (** no deadlock: until the caller has returned, some thread can take a step *)
+  Theorem progress s : InvC s -> main_done s = false -> enabled c s.
+  Proof.
+    intros I Hd.
+    pose proof (ic_main s I) as Im. unfold prog, inner_prog, outer_prog in Im; simpl in Im.
+    destruct (ic_flags s I) as (Ie & Ica & Isc). unfold ph in *.
+    suffix_cases Im.
+    - apply main_enabled; auto. unfold step_main. rewrite Im. discriminate.
+    - destruct (wg s) eqn:Eg.
+      + apply main_enabled; auto. unfold step_main. rewrite Im, Eg. discriminate.
+      + apply workers_progress; auto. unfold ph. now rewrite Im. congruence.
+    - apply main_enabled; auto. unfold step_main. rewrite Im. destruct (eclosed s); discriminate.
+    - apply main_enabled; auto. unfold step_main. rewrite Im, Ie, Im. simpl. destruct (ebuf s); discriminate.
+    - apply main_enabled; auto. unfold step_main. rewrite Im. discriminate.
+    - apply main_enabled; auto. unfold step_main. rewrite Im. discriminate.
+    - destruct (buf s) as [|b r] eqn:Eb.
+      + destruct (closed s) eqn:Ec.
+        * apply main_enabled; auto. unfold step_main. rewrite Im, Eb, Ec. discriminate.
+        * destruct (prod_enabled s I Ec Eb) as (s' & l & H). { unfold ph. rewrite Im. simpl. lia. }
+          eapply step_prod_enabled; eauto.
+      + apply main_enabled; auto. unfold step_main. rewrite Im, Eb. discriminate.
+    - apply main_enabled; auto. unfold step_main. rewrite Im. destruct (sclosed s); discriminate.
+    - apply main_enabled; auto. unfold step_main. rewrite Im, Isc, Im. simpl. destruct (sbuf s); discriminate.
+    - unfold main_done in Hd. rewrite Im in Hd. discriminate.
+  Qed.
+
 End Pool.
+
+(* ---------------------------------------------------------------- termination measure *)
+Section Measure.
+  Variable c : cfg.
+  Hypothesis Houter2 : Forall (fun a => m_cost c a = 2) (c_outer c).
+
+  Definition wsum (l : list worker) : nat := fold_right (fun wk a => w_cost wk + a) 0 l.
+  Definition msum (l : list mact) : nat := fold_right (fun a n => m_cost c a + n) 0 l.
+
+  Lemma wsum_app l1 l2 : wsum (l1 ++ l2) = wsum l1 + wsum l2.
+  Proof. induction l1; simpl; auto. unfold wsum in *. simpl. rewrite IHl1. lia. Qed.
+  Lemma wsum_set_nth k x y l : nth_error l k = Some y -> wsum (set_nth k x l) + w_cost y = wsum l + w_cost x.
+  Proof.
+    intros H. destruct (set_nth_split k x y l H) as (l1 & l2 & -> & _ & ->).
+    rewrite !wsum_app. unfold wsum; simpl. lia.
+  Qed.
+  Lemma wsum_repeat n : wsum (repeat worker0 n) = 3 * n.
+  Proof. induction n; simpl; auto. unfold wsum in *; simpl. rewrite IHn. lia. Qed.
+  Lemma msum_outer : msum (c_outer c) = 2 * List.length (c_outer c).
+  Proof.
+    induction Houter2; simpl; auto. unfold msum in *; simpl. rewrite H, IHf. lia.
+  Qed.
+  Lemma m_cost_ge a : 2 <= m_cost c a.
+  Proof. destruct a; simpl; lia. Qed.
+
+  Lemma next_st_cost pc cur trc tab : w_cost (mk_worker (next_st pc cur) trc tab) = 3 + List.length pc.
+  Proof. destruct pc; reflexivity. Qed.
+
+  (** every step strictly decreases the measure: no execution is infinite *)
+  Theorem measure_decreases t s s' l : step c t s = Some (s', l) -> measure c s' < measure c s.
+  Proof.
+    unfold step. destruct (panicked s) eqn:Ep; [discriminate|].
+    destruct t as [|[|[|k]]]; intros H.
+    - (* main *)
+      unfold step_main in H. destruct (mainpc s) as [|a pc] eqn:Em; [discriminate|].
+      unfold measure. rewrite Em, Ep.
+      destruct a; simpl in H.
+      + inversion H; subst; clear H. simpl. rewrite Ep. fold (wsum (ws s ++ repeat worker0 (c_w c))).
+        rewrite wsum_app, wsum_repeat. fold (wsum (ws s)). fold (msum pc). lia.
+      + destruct (wg s); [|discriminate]. inversion H; subst; clear H. simpl. rewrite Ep. fold (msum pc). lia.
+      + destruct (eclosed s); inversion H; subst; clear H; simpl; rewrite ?Ep, ?Em; simpl; fold (msum pc); lia.
+      + assert (Hs : (mainpc s' = c_outer c \/ mainpc s' = pc) /\ pend s' = pend s /\ closed s' = closed s /\
+                     ppolled s' = ppolled s /\ buf s' = buf s /\ ws s' = ws s /\ panicked s' = false).
+        { destruct (ebuf s); [destruct (eclosed s); [|discriminate]|]; inversion H; subst; simpl; rewrite Ep; auto 10. }
+        destruct Hs as (Hm & -> & -> & -> & -> & -> & ->). fold (msum pc). fold (msum (mainpc s')).
+        destruct Hm as [-> | ->]; [rewrite msum_outer|]; lia.
+      + inversion H; subst; clear H. simpl. rewrite Ep. fold (msum pc). lia.
+      + inversion H; subst; clear H. simpl. rewrite Ep. fold (msum pc). lia.
+      + destruct (buf s) as [|b r] eqn:Eb.
+        * destruct (closed s) eqn:Ec; [|discriminate]. inversion H; subst; clear H. simpl.
+          rewrite Ep, Eb, Ec. simpl. fold (msum pc). lia.
+        * inversion H; subst; clear H. simpl. rewrite Ep, Em. simpl. fold (msum pc). lia.
+      + destruct (sclosed s); inversion H; subst; clear H; simpl; rewrite ?Ep, ?Em; simpl; fold (msum pc); lia.
+      + assert (Hs : mainpc s' = pc /\ pend s' = pend s /\ closed s' = closed s /\
+                     ppolled s' = ppolled s /\ buf s' = buf s /\ ws s' = ws s /\ panicked s' = false).
+        { destruct (sbuf s); [destruct (sclosed s); [|discriminate]|]; inversion H; subst; simpl; rewrite Ep; auto 10. }
+        destruct Hs as (-> & -> & -> & -> & -> & -> & ->). fold (msum pc). lia.
+    - (* producer *)
+      unfold step_prod in H. unfold measure. rewrite Ep.
+      destruct (pend s) as [|[b|] p] eqn:Epd.
+      + destruct (closed s) eqn:Ec; [discriminate|]. inversion H; subst; clear H. simpl. rewrite Ep. lia.
+      + destruct (c_select c || ppolled s) eqn:Esel.
+        * destruct (List.length (buf s) <? c_ccap c); [|discriminate]. inversion H; subst; clear H.
+          simpl. rewrite Ep, app_length. simpl. destruct (ppolled s); lia.
+        * apply orb_false_iff in Esel as [_ Epp]. rewrite Epp.
+          destruct (cancelled s); inversion H; subst; clear H; simpl; rewrite ?Ep, ?Epp, ?Epd; simpl; lia.
+      + destruct (sclosed s).
+        * inversion H; subst; clear H. simpl. rewrite Epd. simpl. lia.
+        * destruct (List.length (sbuf s) <? 1); [|discriminate]. inversion H; subst; clear H. simpl. rewrite Ep. lia.
+    - (* producer, ctx.Done *)
+      unfold step_prod_cancel in H. unfold measure. rewrite Ep.
+      destruct (pend s) as [|[b|] p] eqn:Epd; try discriminate.
+      destruct (c_select c && cancelled s); [|discriminate]. inversion H; subst; clear H. simpl. rewrite Ep. lia.
+    - (* worker *)
+      unfold step_worker in H. unfold measure. rewrite Ep.
+      destruct (nth_error (ws s) k) as [wk|] eqn:Hk; [|discriminate].
+      destruct wk as [stt trc tab]; simpl in H.
+      destruct stt as [|pc cur|cur| |].
+      + destruct (buf s) as [|b r] eqn:Eb.
+        * destruct (closed s); [|discriminate]. inversion H; subst; clear H. simpl. rewrite Ep, Eb.
+          pose proof (wsum_set_nth k (mk_worker WExit trc tab) _ _ Hk) as Hw. unfold wsum in Hw. simpl in *. lia.
+        * inversion H; subst; clear H. simpl. rewrite Ep.
+          pose proof (wsum_set_nth k (mk_worker (next_st (c_body c) b) trc tab) _ _ Hk) as Hw.
+          rewrite next_st_cost in Hw. unfold wsum in Hw. simpl in *. lia.
+      + destruct pc as [|a pc]; [discriminate|].
+        assert (Hgen : forall s0 wk', w_cost wk' <= 3 + List.length pc ->
+                  pend s0 = pend s -> closed s0 = closed s -> ppolled s0 = ppolled s -> buf s0 = buf s ->
+                  ws s0 = ws s -> mainpc s0 = mainpc s -> panicked s0 = false ->
+                  measure c (set_worker s0 k wk') < measure c s).
+        { intros s0 wk' Hc E1 E2 E3 E4 E5 E6 E7. unfold measure. simpl. rewrite E1, E2, E3, E4, E5, E6, E7, Ep.
+          pose proof (wsum_set_nth k wk' _ _ Hk) as Hw. unfold wsum in Hw. simpl in *. lia. }
+        unfold measure in Hgen. rewrite Ep in Hgen.
+        destruct a as [| | | |[]|[]]; simpl in H;
+          try (destruct (b_fail cur)); try (destruct (mutex s)); try discriminate;
+          inversion H; subst; clear H;
+          try (apply Hgen; simpl; auto; rewrite ?next_st_cost; simpl; lia).
+        simpl. lia.
+      + destruct (eclosed s).
+        * inversion H; subst; clear H. simpl. lia.
+        * destruct (List.length (ebuf s) <? c_ecap c); [|discriminate]. inversion H; subst; clear H. simpl. rewrite Ep.
+          pose proof (wsum_set_nth k (mk_worker WExit trc tab) _ _ Hk) as Hw. unfold wsum in Hw. simpl in *. lia.
+      + destruct (wg s).
+        * inversion H; subst; clear H. simpl. lia.
+        * inversion H; subst; clear H. simpl. rewrite Ep.
+          pose proof (wsum_set_nth k (mk_worker WDone trc tab) _ _ Hk) as Hw. unfold wsum in Hw. simpl in *. lia.
+      + discriminate.
+  Qed.
+
+  Lemma execs_length s tr s' : execs c s tr s' -> List.length tr + measure c s' <= measure c s.
+  Proof.
+    induction 1; simpl; auto. rewrite app_length. simpl.
+    pose proof (measure_decreases _ _ _ _ H0). lia.
+  Qed.
+End Measure.
